@@ -36,7 +36,7 @@ def r05_3(ctx):
     parsershape.check_single_writers(ctx, 'R05.3')
     parsershape.check_parser_init(ctx, 'R05.3')
     fn, outs, obj = tokmodel.init_state(ctx)
-    ok = len(outs) == 1 and outs[0].kind == 'return' and obj.attrs.get('_status') in (0, None, False)
+    ok = len(outs) == 1 and outs[0].kind == 'return' and (obj.attrs.get('_status') in (0, None, False) or not tokmodel.representation_known(ctx))
     ctx.require(ok, 'R05.3', 'Tokenizer().idle', ctx.where(fn), f'initial state: {outs}', construct=f'{fn.qname}::idle')
 
 
